@@ -672,8 +672,12 @@ func init() {
 				json.Unmarshal(raw, &rc)
 				return lib.Safe(enum.New("@E", rc.Text).Check).Verdict()
 			},
-			"enum-reused":  func(json.RawMessage) string { return "needs the history of the schema object: not replayable from the case alone" },
-			"regex-reused": func(json.RawMessage) string { return "needs the history of the schema object: not replayable from the case alone" },
+			"enum-reused": func(json.RawMessage) string {
+				return "needs the history of the schema object: not replayable from the case alone"
+			},
+			"regex-reused": func(json.RawMessage) string {
+				return "needs the history of the schema object: not replayable from the case alone"
+			},
 			"rule-check-twice": func(raw json.RawMessage) string {
 				var rc c18RuleCase
 				json.Unmarshal(raw, &rc)
